@@ -45,11 +45,15 @@ for fixes, want in ((["wcfg", "noqcfg"], False), (["noqcfg"], True), (["wcfg"], 
   r = tlc.run("selftest_recipe", "Recipe", consts, invariants=["RoundTrip"], view="View", workers=8)
   expect("Recipe fixes %-20s RoundTrip %s" % (fixes, "violated" if want else "holds"), ("RoundTrip" in r.violated) == want)
 
-for fixes, inv in ((["once"], ("PrevUntouched", "ExactFold", "Resumes")), (["deepcopy"], ("ExactFold",))):
-  c = dict(Ops="<<[ins |-> <<0>>, outs |-> <<1>>], [ins |-> <<1, 0>>, outs |-> <<2>>]>>", GIns="<<0>>", GOuts="<<2>>", NT="3", NSamples="3", MaxSessions="2",
-           Fixes=tlc.tla_str_set(fixes))
+for fixes, inv in ((["once"], ("PrevUntouched", "ExactFold", "Resumes")), (["deepcopy"], ("ExactFold",)), (["once", "shallow"], ("PrevUntouched", "ExactFold")),
+                   (["once", "deepcopy"], ())):
+  c = dict(Ops="<<[ins |-> <<0>>, outs |-> <<1>>, sub |-> 1], [ins |-> <<1, 0>>, outs |-> <<2>>, sub |-> 1], [ins |-> <<3>>, outs |-> <<4>>, sub |-> 2]>>",
+           GIns="<< <<0>>, <<3>> >>", GOuts="<< <<2>>, <<4>> >>", NT="5", NSamples="2", MaxSessions="2", Fixes=tlc.tla_str_set(fixes))
   r = tlc.run("selftest_calib", "Calib", c, invariants=["ExactFold", "PrevUntouched"], workers=8)
-  expect("Calib fixes %-12s one of %s violated" % (fixes, inv), any(i in r.violated for i in inv), str(r.violated))
+  if inv:
+    expect("Calib fixes %-20s one of %s violated" % (fixes, inv), any(i in r.violated for i in inv), str(r.violated))
+  else:
+    expect("Calib fixes %-20s all invariants hold" % fixes, not r.violated and not r.error, str(r.violated))
 
 for fixes, want in ((["qsvcopy"], False), ([], True)):
   c = dict(NQ="2", Recipes='{"RA", "RB"}', Policies='{"P0"}', Datasets='{"D1"}', MaxLen="4", MaxCals="2",
